@@ -94,6 +94,7 @@ def _table(ck, p, byk):
     # entry conditions
     cb = bi
     guards = []
+    pv = Prov(f)
     for gb, b in enumerate(f.blocks):
         t = b["t"]
         if t["k"] != "switch" or not cfg.dominates(gb, cb) or gb == cb:
@@ -105,6 +106,14 @@ def _table(ck, p, byk):
             if s2["k"] == "assign" and d and s2["lhs"] == [d[0]] and s2["rv"]["k"] == "bin":
                 cmpop = s2["rv"]
         if cmpop is None:
+            # the comparison was computed earlier into a named boolean: follow the discriminant back to it
+            for o in pv.trace_operand(t["discr"]):
+                if o[0] == "bin" and o[1] in ("Lt", "Gt", "Le", "Ge"):
+                    for b2 in f.blocks:
+                        for s2 in b2["s"]:
+                            if s2["k"] == "assign" and s2["rv"]["k"] == "bin" and s2["rv"]["op"] == o[1] and frozenset(pv.trace_operand(s2["rv"]["a"])) == o[2] and frozenset(pv.trace_operand(s2["rv"]["b"])) == o[3]:
+                                cmpop = s2["rv"]
+        if cmpop is None:
             continue
         # the taken edge towards the cast and the other edge
         succ = [x for _, x in t["targets"]] + [t["otherwise"]]
@@ -113,7 +122,10 @@ def _table(ck, p, byk):
         guards.append((cmpop["op"], _desc(cmpop), bool(away) and all(not (x == cb or cfg.reaches(x, [cb])) for x in away)))
     ops = sorted(g[0] for g in guards)
     ok = len(guards) == 3 and all(g[2] for g in guards) and ops == ["Gt", "Gt", "Lt"]
-    ck.decide(rule, "correct_suffix_for:entry", ok, f.span, "comparisons that must fail before the cast is reached: %s" % [(g[0], g[1]) for g in guards])
+    if not guards:
+        ck.undecided(rule, "correct_suffix_for:entry", f.span, "no comparison guarding the cast was recognised (the guards may be computed in a form this rule does not follow)")
+    else:
+        ck.decide(rule, "correct_suffix_for:entry", ok, f.span, "comparisons that must fail before the cast is reached: %s" % [(g[0], g[1]) for g in guards])
 
 
 def _desc(rv):
@@ -286,7 +298,11 @@ def _tables(ck, p, byk):
     d = p.adts["harper_core::number::NumberSuffix"]
     vnames = {v["idx"]: v["name"] for v in d["variants"]}
     cfg = Cfg(tc)
-    sw = tc.blocks[0]["t"]
+    # the switch on self's discriminant: the first switch reached from the entry (a helper spliced in puts a goto first)
+    b0, hops = 0, 0
+    while tc.blocks[b0]["t"]["k"] == "goto" and hops < 6:
+        b0, hops = tc.blocks[b0]["t"]["target"], hops + 1
+    sw = tc.blocks[b0]["t"]
     to = {}
     if sw["k"] == "switch":
         for v, blk in sw["targets"]:
@@ -317,6 +333,11 @@ def _tables(ck, p, byk):
                 n += 1
 
                 def read(pl, env, c0=c0, c1=c1):
+                    if pl == [1] or pl == [1, "*"]:
+                        return ("tuple", [("char", ord(c0)), ("char", ord(c1))])      # the slice itself (its length is asked for)
+                    ci = [e for e in pl[1:] if isinstance(e, list) and e[0] == "ci"]
+                    if pl[0] == 1 and ci:
+                        return ("char", ord(c0 if ci[0][1] == 0 else c1))             # constant index of a slice pattern
                     if pl[0] == 1 and any(isinstance(e, list) and e[0] == "i" for e in pl[1:]):
                         idx = [e for e in pl[1:] if isinstance(e, list) and e[0] == "i"][0][1]
                         v = env.get(idx)
@@ -335,6 +356,11 @@ def _tables(ck, p, byk):
                     got = "stuck: %s" % e
                 if got != want:
                     bad.append((c0 + c1, got, want))
+    if bad and all(str(g).startswith("stuck") for _, g, _ in bad):
+        ck.undecided(rule, "NumberSuffix::from_chars", fc.span, "from_chars is beyond the table evaluator (%s)" % bad[0][1])
+        bad = None
+    if bad is None:
+        return
     ck.floor(rule, "letter-case variants interpreted through from_chars", n, 16)
     ck.decide(rule, "NumberSuffix::from_chars", not bad, fc.span, "all 16 case variants map to the variant whose to_chars is their lower-case form%s" % ("" if not bad else "; mismatches: %s" % bad))
 
